@@ -54,13 +54,13 @@ CLAIMED.update({
             "The ticker-driven time bound is a timing statement and is not decided; partition-level limits are covered only through the same post-state (DESIGN §7 C10).", "§7 C10"),
     "C24": ("Pruning obligations proved per function: FilterDataBlocks returns only blocks the prefilter admits (each result is one of the inputs and passed TestBlockPrefilter); the file stage dispatches a file only with a non-empty admitted block list and, with bloom conditions, a positive file-filter verdict; evaluateBlockFilters acquires no handle and opens nothing when the query has no bloom/regex conditions; the chunk reader and row-data readers read only inside the extents the metadata declares (readFullAt assertion, validSection/checkExtentWithinFile contracts).",
             "Store read log is ghost (opens/hAcquired counters via extern contracts, assumed). Bloom library Test is an extern (DESIGN §7 C24).", "§7 C24"),
-    "C25": ("Constructor and builder semantics proved for every valuation of the leaves: flattenExpressions/flattenPrefilterExpressions/flattenRegexExpressions preserve 'all children true' and 'some child true' of the input list for the flattened operator (inductive loop invariants, unbounded lists), And/Or/PrefilterAnd/PrefilterOr/RegexAnd/RegexOr return a node of the stated operator whose children have that meaning, QueryBuilder.where/addBloomExpression/Build/MatchPrefilter assemble implicit conditions under a single AND and keep the explicit expression.",
+    "C25": ("Constructor and builder semantics proved for every valuation of the leaves: flattenExpressions/flattenPrefilterExpressions/flattenRegexExpressions preserve 'all children true' and 'some child true' of the input list for the flattened operator (inductive loop invariants, unbounded lists), And/Or/PrefilterAnd/PrefilterOr/RegexAnd/RegexOr return a node of the stated operator whose children have that meaning, QueryBuilder.where/addBloomExpression/whereRegex/addRegexExpression/Build/MatchPrefilter assemble implicit conditions under a single AND and keep the explicit expression, on the bloom and on the regex side; chaining onto an explicit expression builds a new node and never writes into the caller's tree (append-shared obligations).",
             "Evaluation is stated one level deep over an arbitrary valuation of child nodes (the evaluators themselves are under contract in C04/C24); JSON round-trip depends on encoding/json and is not decided by contracts (DESIGN §7 C25).", "§7 C25"),
 })
 
 CLAIMED.update({
-    "C18": ("Entry-set obligations of the merge path: unionInto proved exact (afterwards the destination's three sets are precisely old ∪ source, nothing else touched; map-iteration loops by inductive invariant over the visited-key set); mergeDataBlocks folds each merged block's sets into the file-level sets exactly once after its last row was indexed; buffer lifetime: a row buffer handed to indexRow (whose retained strings may view it) is never refilled (io.ReadFull/readFullAt/decodeBlockRowDataInto) and never returned to the scan-buffer pool for the rest of the merge (ghost typestate `pinned`) in copyDataBlock, mergeDataBlocks, loadBlockRowData, ReadDataBlockRowData.",
-            "indexRow's own body (gjson/tokenizer) is an assumed contract: that every path/token/pair of the row is added is NOT decided; bloom library Add/Test is an assumption; the flush path (handleFlush) and partition IDs / minmax coverage are not yet under C18 contracts (DESIGN §7 C18, §14).", "§7 C18"),
+    "C18": ("Entry-set obligations of the merge path: unionInto proved exact (afterwards the destination's three sets are precisely old ∪ source, nothing else touched; map-iteration loops by inductive invariant over the visited-key set); mergeDataBlocks folds each merged block's sets into the file-level sets exactly once after its last row was indexed; buffer lifetime: a row buffer handed to indexRow (whose retained strings may view it) is never refilled (io.ReadFull/readFullAt/decodeBlockRowDataInto) and never returned to the scan-buffer pool for the rest of the merge (ghost typestate `pinned`) in copyDataBlock, mergeDataBlocks, loadBlockRowData, ReadDataBlockRowData. Flush path (handleFlush, for any number of partition buffers, map-iteration loop by inductive invariant over the visited keys): every block's filters are built from that block's own entry sets (ghost: whose sets the last buildFilters call was made on, asserted where the section is encoded), every block's sets are folded into the file-level sets (unionInto exact), and the file-level filters are built from the file-level sets only when every block's sets are contained in them (asserted at that buildFilters call and where the footer is written).",
+            "indexRow's own body (gjson/tokenizer) is an assumed contract: that every path/token/pair of the row is added is NOT decided; bloom library Add/Test is an assumption; that buildSizedBloomFilter inserts every element of its set is NOT under contract (buildFilters has a type-based frame and a ghost recording whose sets it was called on); partition IDs and the ingest-time minmax coverage are not yet under C18 contracts (the merge-time minmax link is: C04/C11) (DESIGN §7 C18, §14, §19).", "§7 C18"),
 })
 
 CLAIMED.update({
